@@ -1,14 +1,15 @@
 """C09 — the front end is total: any text yields a result or renderable errors.
 
 Proofs: coq/theories/Props/C09.v over the byte-level tokenizer model coq/theories/Front/Lexer.v
-        (port of parser/src/token.rs + str_suffix.rs with explicit Panic outcomes).
+        (port of parser/src/token.rs + str_suffix.rs with explicit Panic / Fuel outcomes).
 C:      extracted `lex` / `unescape` vs `gluon_parser::verif::tokens` and the grammar's
         `StringLiteral::unescape` on corpus + generated inputs (<= 4 KiB), run in a child process.
-        The model has two variants: fx=0 (tree as found) and fx=1 (tree after
-        fixes/C09-lexer-non-ascii.patch + C09-unescape-invalid-escape.patch); the check determines
-        which variant the implementation follows.  For fx=1 `C09_lex_no_panic_ascii`... hold on
-        all inputs the theorems quantify over; for fx=0 the refutation theorems apply and the
-        implementation is observed to panic on the same inputs.
+        The model is parametrised by four booleans (which of the tokenizer fixes the tree has:
+        C09-lexer-non-ascii, C09-int-literal-span, C08-builtin-operator-span,
+        C09-unescape-invalid-escape); the check determines which variant the implementation
+        follows.  With fx=1 the positive theorems (no panic / spans on boundaries for every valid
+        UTF-8 input) apply; with fx=0 the refutation theorems apply and the implementation is
+        observed to panic on the same inputs.
 Monitor (no model): parse_partial_expr / typecheck_str under catch_unwind in a child with an 8 MiB
         stack and a 10 s watchdog; every reported error span must lie in its file on character
         boundaries; emit_string must succeed; nesting sweep.
@@ -126,24 +127,36 @@ def tie(ctx, tier_override=None, tag="tie"):
         ctx.harness_crash = out[-1500:]
         return None
     p = lambda n: os.path.join(out_dir, n)
-    # both variants of the model
+    # which variant of the model does the tree follow?  (fx, sp, ob, un) = lexer-non-ascii /
+    # int-literal-span / builtin-operator-span / unescape-invalid-escape fix applied or not
     lines = common.read_lines(p("model_in.txt"))
-    with open(p("model_in_fx1.txt"), "w") as f:
-        for l in lines:
-            f.write("fx=1;" + l.split(";", 1)[1] + "\n")
-    if not run_model_parallel(ctx, model, p("model_in.txt"), p("model_out.txt")):
-        return None
-    if not run_model_parallel(ctx, model, p("model_in_fx1.txt"), p("model_out_fx1.txt")):
-        return None
-    n0, d0 = common.diff_lines(p("model_out.txt"), p("impl_out.txt"), limit=200)
-    n1, d1 = common.diff_lines(p("model_out_fx1.txt"), p("impl_out.txt"), limit=200)
+    first = [(1, 1, 0, 1), (1, 1, 1, 1), (0, 0, 0, 0), (0, 0, 1, 0)]
+    order = first + [(a, b, c, d) for a in (0, 1) for b in (0, 1) for c in (0, 1) for d in (0, 1) if (a, b, c, d) not in first]
+    results = {}
+    best = None
+    for v in order:
+        tag_v = "%d%d%d%d" % v
+        with open(p("model_in_%s.txt" % tag_v), "w") as f:
+            for l in lines:
+                f.write("fx=%d;sp=%d;ob=%d;un=%d;%s\n" % (v[0], v[1], v[2], v[3], l))
+        if not run_model_parallel(ctx, model, p("model_in_%s.txt" % tag_v), p("model_out_%s.txt" % tag_v)):
+            return None
+        n, d = common.diff_lines(p("model_out_%s.txt" % tag_v), p("impl_out.txt"), limit=200)
+        results[v] = (n, d)
+        os.remove(p("model_in_%s.txt" % tag_v))
+        if best is None or len(d) < len(results[best][1]):
+            best = v
+        if not d:
+            break
     return {
         "dir": out_dir,
-        "n": n0,
-        "diffs": {0: d0, 1: d1},
+        "n": results[best][0],
+        "variant": best,
+        "diffs": results[best][1],
+        "tried": {"%d%d%d%d" % v: len(r[1]) for v, r in results.items()},
         "cases": common.read_lines(p("cases.txt")),
         "impl": common.read_lines(p("impl_out.txt")),
-        "model": {0: common.read_lines(p("model_out.txt")), 1: common.read_lines(p("model_out_fx1.txt"))},
+        "model": common.read_lines(p("model_out_%d%d%d%d.txt" % best)),
         "stats": json.load(open(p("stats.json"))),
         "monitor": json.load(open(p("monitor.json"))),
     }
@@ -158,22 +171,19 @@ def case_of(t, i):
 def evaluate(ctx, t):
     """Turn the tie/monitor results into obligations and violations.  Returns number of concrete violations."""
     nviol = 0
-    d0, d1 = t["diffs"][0], t["diffs"][1]
-    if not d0:
-        variant = 0
-    elif not d1:
-        variant = 1
-    else:
-        variant = 0 if len(d0) <= len(d1) else 1
-    diffs = t["diffs"][variant]
+    variant = t["variant"]
+    diffs = t["diffs"]
+    names = ("lexer-non-ascii", "int-literal-span", "builtin-operator-span", "unescape-invalid-escape")
+    applied = [n for n, b in zip(names, variant) if b]
     ctx.coverage["tree_variant"] = (
-        "fx=%d (%s): %d/%d disagreements; other variant: %d" % (
-            variant, "tree as found: restore_char/slice can panic" if variant == 0 else "tree with the C09 lexer and unescape fixes",
-            len(diffs), t["n"], len(t["diffs"][1 - variant])))
+        "model variant fx=%d sp=%d ob=%d un=%d (%s): %d/%d disagreements; variants tried (disagreements, capped at 200): %s" % (
+            variant[0], variant[1], variant[2], variant[3],
+            "tree as found" if not applied else "tree with fixes: " + ", ".join(applied),
+            len(diffs), t["n"], json.dumps(t["tried"])))
     ctx.log("lexer tie:", ctx.coverage["tree_variant"])
     ctx.obligations.append(common.Obligation(
         "correspondence:lexer", "correspondence", not diffs,
-        "%d inputs, model variant fx=%d, %d disagreements" % (t["n"], variant, len(diffs))))
+        "%d inputs, model variant fx/sp/ob/un=%d%d%d%d, %d disagreements" % (t["n"], variant[0], variant[1], variant[2], variant[3], len(diffs))))
     seen = set()
 
     def viol(key, what, case, expected=None, observed=None, extra=None):
@@ -212,7 +222,7 @@ def evaluate(ctx, t):
         c = {"hex": v["minimal_hex"], "text": v["minimal"], "found_in": {"family": v.get("family"), "index": v.get("index"), "hex": v.get("hex", "")[:8192]}}
         if key.startswith("lexer-panic"):
             viol(key, "the tokenizer panics (%s) on %r" % (v["site"], v["minimal"]), c,
-                 expected="a token stream with UnexpectedChar errors (model fx=1); the model of the current tree (fx=0) predicts this panic",
+                 expected="a token stream with UnexpectedChar errors (model fx=1); the model variant matching the tree predicts this panic",
                  observed="panic:" + v["site"])
         else:
             viol(key, "the tokenizer child died on this input: " + v["site"], c, observed=v["site"])
